@@ -32,7 +32,7 @@ func (c14Checker) Meta() CheckerMeta {
 		Real:        []string{"pongo2 package (all four Execute* entry points, every tag/filter the generator writes)", "pongo2.FSLoader over the simulated fs.FS", "bytes.Buffer"},
 		Stub:        []string{"the caller's io.Writer (recording, faulting, sticky once failed)", "context call-backs y/yv/Cb, filter vsim, tag vsim (return the injected error)", "template files (in-memory disk)"},
 		Assumptions: []string{"the fault-free run of the same program/context is the reference for 'what a successful run would have produced'", "a failed writer stays failed (like a closed connection); only legal io.Writer behaviour is injected"},
-		QuickRuns:   6000, QuickRace: 0,
+		QuickRuns:   5000, QuickRace: 0,
 	}
 }
 
@@ -73,6 +73,7 @@ func (c14Checker) Run(tp *Tapes, opt RunOpt) *Outcome {
 		}
 		out.Execs++
 		r := w.Exec(tpl, ep, w.BuildCtx(d), sp.Blocks)
+		out.dig(r.String())
 		fired := 0
 		for k, v := range w.Fired {
 			out.Faults[k] += v
@@ -248,7 +249,7 @@ func (c14Checker) Run(tp *Tapes, opt RunOpt) *Outcome {
 			}
 			for j := 1; j <= jmax; j++ {
 				for _, fk := range []uint32{FWriteEIO, FWriteShort} {
-					plan := []FaultSpec{{Site: KWrite, Task: -1, Op: -1, Occ: j - 1, Fault: fk, Param: uint32(g.Draw(3)), Disk: -1}}
+					plan := []FaultSpec{{Site: KWrite, Task: -1, Op: -1, Occ: j - 1, Fault: fk, Param: uint32(g.Draw(len(WriterErrors))), Disk: -1}}
 					r, _ := run(ep, cd, plan)
 					what := FaultName(fk)
 					if r.Panic != "" {
@@ -265,8 +266,8 @@ func (c14Checker) Run(tp *Tapes, opt RunOpt) *Outcome {
 					if ep == EpExecuteWriter {
 						if r.err == nil {
 							viol("writer_error_lost", r.Entry+" "+what, "ExecuteWriter returned nil although the caller's writer failed", "non-nil error", r.String())
-						} else if !errors.Is(r.err, ErrInjectedWrite) {
-							viol("writer_error_lost", r.Entry+" "+what+" identity", "ExecuteWriter returned an error that is not (and does not wrap) the writer's error", ErrInjectedWrite.Error(), r.String())
+						} else if !errors.Is(r.err, r.werr) {
+							viol("writer_error_lost", r.Entry+" "+what+" identity", "ExecuteWriter returned an error that is not (and does not wrap) the writer's error", fmt.Sprint(r.werr), r.String())
 						}
 					}
 				}
